@@ -50,6 +50,9 @@ CHECKS['C19'] = dict(text='For every build-dependency graph on 3 sources (thorou
 CHECKS['C12'] = dict(text='Wiring-level claim: the four digest constructors are replaced by abstract hashers that record every byte written in order and whose Sum is an uninterpreted function H_alg of those bytes. With symbolic content, every split into writes/reads and ordered selections of the algorithms, the real hashio writers/readers (io.MultiWriter/TeeReader from SSA) are shown to pass the bytes through unchanged, count them, and report H_name(content); the real FileHash.Verifier for entries parsed from Checksums-Sha256/-Sha512, obtained through BestChecksums and built by FileHashFromHasher is shown to accept exactly when H_{entry algorithm}(content) equals the recorded hash.',
              note='Trusted: go/ssa, interpreter, reflect model, z3, and the digest functions themselves (stdlib; uninterpreted here). No native translator validation is possible for digests (real vs. uninterpreted); counterexamples are still replayed natively with the real digests.',
              ref='DESIGN.md 2/C12')
+CHECKS['C20'] = dict(text='Copy/Move/Remove of .dsc and .changes handles with 0-2 (thorough 3) referenced files are executed symbolically against a deterministic filesystem model with a symbolic fault configuration (each file ok / missing / replaced by a directory, a directory blocking a destination name): on every path an error leaves the control file out of the destination (Move/Remove: still at its source) and success leaves every file complete, identical and at the right place with the handle updated. With the listed name symbolic over {".", "/", "a"} every path must leave sentinels outside the source directory untouched and bring nothing from outside into the destination.',
+             note='Trusted: go/ssa, interpreter, z3, and the filesystem model (engine/symgo/osmodel.py), which is validated against the real filesystem on the validation calls and on every replay (the same harness runs natively in a temp directory). Faults that need resource exhaustion (ENOSPC, failing Close) are outside the model.',
+             ref='DESIGN.md 2/C20')
 NA = {}
 props = [json.loads(l) for l in open(os.path.join(V, 'properties.jsonl'))]
 checks = []
